@@ -1267,9 +1267,18 @@ def run_prog(src, events):
     entries = []
     orig_start = sm._start_flow
 
+    start_errors = []
+
     def start_flow_spy(state, flow_state, event_arguments):
         # what the callee sees when it starts: its context right after `_start_flow` (values copied at that moment)
-        orig_start(state, flow_state, event_arguments)
+        try:
+            orig_start(state, flow_state, event_arguments)
+        except Exception as e:  # noqa
+            # the error class raised by `_start_flow` is what is compared with the model's `error:…` outcome — whether the exception
+            # then leaves run_to_completion or is contained by `_handle_event_matching` (ColangError, the new instance fails:
+            # fixes/C10-handle-match-error-contained.diff)
+            start_errors.append(_exc_name(e))
+            raise
         if flow_state.flow_id != "main":
             try:
                 entries.append([flow_state.flow_id, _items(copy.deepcopy(_visible(flow_state.context)))])
@@ -1301,6 +1310,9 @@ def run_prog(src, events):
         sm._start_flow = orig_start
         if old_left:
             signal.alarm(max(1, old_left - 1))
+    if "exc" not in obs and start_errors:
+        obs["exc"] = start_errors[0]
+        obs["exc_contained"] = True
     obs["entries"] = entries
     obs["out"] = [_clean_event(e) for e in out]
     obs["insts"] = [[fs.flow_id, _items(_visible(fs.context))] for fs in st.flow_states.values()]
